@@ -195,6 +195,14 @@ func (g *vfGamma) ruri(c string, lport int) string {
 		return "sip:alice@svc.example.com"
 	case "userhost":
 		return "sip:sos@emergency.example"
+	case "userhost2":
+		return "sip:police@emergency.example"
+	case "userhost.miss":
+		return "sip:fire@emergency.example"
+	case "hostafter":
+		return "sip:bob@dual.example"
+	case "userhost.first":
+		return "sip:alice@dual.example"
 	case "regex":
 		return "sip:x911@any.example"
 	case "urn":
@@ -211,7 +219,7 @@ func (g *vfGamma) ruri(c string, lport int) string {
 	panic("unknown ruri class " + c)
 }
 
-const vfNamesCfg = "svc.example.com, sos@emergency.example, urn:service:sos, x9[0-9]+@any\\.example"
+const vfNamesCfg = "svc.example.com, sos@emergency.example, urn:service:sos, x9[0-9]+@any\\.example, police@emergency.example, alice@dual.example, dual.example"
 
 type vfHdr struct{ n, v string }
 
@@ -521,6 +529,14 @@ func (pr *vfProxyRun) sinks(lport int) {
 	}
 }
 
+// respSrc: where a response comes from - a registered backend (even n) or a next hop that is not one (odd n)
+func (pr *vfProxyRun) respSrc(n int) (string, int) {
+	if n%2 == 0 {
+		return pr.g.ip("10.0.4.1"), 5060
+	}
+	return pr.g.ip("10.0.1.1"), 5070
+}
+
 func (pr *vfProxyRun) benchCfg(rc *vfRecipe) vfBenchCfg {
 	g := pr.g
 	c := vfBenchCfg{Names: vfNamesCfg, Keep: rc.Rc.Keep, Hosts: g.hosts()}
@@ -807,8 +823,10 @@ func TestVfProxy(t *testing.T) {
 			if rc.Rc.Kind == "req" {
 				pr.step(id, cls, b, 0, 0, pr.g.ip("10.0.5.5"), 40000, pr.g.request(&rc))
 			} else {
-				// a response arrives from a backend / next hop address
-				pr.step(id, cls, b, 0, 0, pr.g.ip("10.0.4.1"), 5060, pr.g.response(&rc))
+				// a response arrives from a backend address or from a next hop that is no backend (the peer of a request
+				// relayed by Route / static route): the repetitions of a recipe alternate between the two
+				sip, sport := pr.respSrc(k + rep)
+				pr.step(id, cls+" from="+sip, b, 0, 0, sip, sport, pr.g.response(&rc))
 			}
 			pr.ncase++
 		}
@@ -847,7 +865,8 @@ func TestVfProxy(t *testing.T) {
 				if rc.Rc.Kind == "req" {
 					pr.step(id, cls, b, 0, 0, pr.g.ip("10.0.5.5"), 40000, pr.g.request(rc))
 				} else {
-					pr.step(id, cls, b, 0, 0, pr.g.ip("10.0.4.1"), 5060, pr.g.response(rc))
+					sip, sport := pr.respSrc(pr.g.rnd.Intn(2))
+					pr.step(id, cls, b, 0, 0, sip, sport, pr.g.response(rc))
 				}
 			}
 			pr.ncase++
